@@ -454,3 +454,39 @@ func VerifC03_GenDecodeBig(sign, n, extra int) {
 	}
 	verifAssert("value", g.Cmp(v) == 0)
 }
+
+// VerifC03_LargeStruct: a structure nested in a structure holding one byte
+// string of n bytes (first and last byte symbolic, the rest zero) followed by an
+// integer: the back-patched structure lengths must be right whatever buffer
+// growth happens while the structures are open (n is chosen around the usual
+// buffer size boundaries).
+func VerifC03_LargeStruct(n int) {
+	tag := verifTag("tag")
+	payload := make([]byte, n)
+	if n > 0 {
+		payload[0] = verifNondetUint8("first")
+		payload[n-1] = verifNondetUint8("last")
+	}
+	v := verifNondetInt32("v")
+	inner := Value{Tag: 0x420002, Value: Struct{Value{Tag: 0x420003, Value: payload}, Value{Tag: 0x420004, Value: v}}}
+	top := Value{Tag: tag, Value: Struct{inner, Value{Tag: 0x420005, Value: v}}}
+	out := MarshalTTLV(top)
+	padded := (n + 7) / 8 * 8
+	innerLen := 8 + padded + 16
+	verifAssert("total size", len(out) == 8+8+innerLen+16)
+	if len(out) != 8+8+innerLen+16 {
+		return
+	}
+	verifAssert("outer structure length", refBE32(out[4:8]) == len(out)-8 && out[3] == 1)
+	verifAssert("inner structure length", refBE32(out[12:16]) == innerLen && out[11] == 1)
+	verifAssert("byte string header", refBE32(out[20:24]) == n && out[19] == 8)
+	if n > 0 {
+		verifAssert("byte string content", out[24] == payload[0] && out[24+n-1] == payload[n-1])
+	}
+	var back Value
+	err := UnmarshalTTLV(append([]byte(nil), out...), &back)
+	verifAssert("decodes", err == nil)
+	if err == nil {
+		verifAssert("round trip", valueEq(back, top))
+	}
+}
